@@ -268,8 +268,25 @@ fn compare(
     t: u64,
     s: &WorldlineState,
 ) {
+    let mut got = tick_res(s, false);
+    if let Some(o) = base.per.get(&w).and_then(|x| x.get(t as usize)) {
+        if got.warp_fp != o.warp_fp && got.root == o.root {
+            got.warp_sorted_fp = Some(sorted_fp(s));
+        }
+    }
+    compare_res(v, base, opts, stage, w, t, got);
+}
+
+fn compare_res(
+    v: &mut Verdict,
+    base: &Baseline,
+    opts: &Opts,
+    stage: &str,
+    w: WorldlineId,
+    t: u64,
+    got: TickRes,
+) {
     v.ok_checks += 1;
-    let got = tick_res(s, false);
     let wl = w.as_bytes()[0];
     let Some(orig) = base.per.get(&w).and_then(|x| x.get(t as usize)) else {
         // verification succeeded beyond the original history
@@ -292,7 +309,7 @@ fn compare(
     }
     if got.warp_fp != orig.warp_fp {
         // order-insensitive fallback (edge buckets are Vecs in insertion order)
-        if got.root == orig.root && Some(sorted_fp(s)) == orig.warp_sorted_fp {
+        if got.root == orig.root && got.warp_sorted_fp.is_some() && got.warp_sorted_fp == orig.warp_sorted_fp {
             v.used_sorted_fallback = true;
         } else {
             what.push("warp_state");
@@ -381,7 +398,17 @@ pub fn verify(h: &History, base: &Baseline, material: &[ProvenanceEntry], opts: 
         // ---- playback cursor: forward walk (in-place advance), then backward seek (rebuild) ----
         let warp = h.base.root().warp_id;
         let r = mc::catch(|| {
-            let mut out: Vec<Result<(u64, WorldlineState), String>> = Vec::new();
+            // (tick, result, order-insensitive fingerprint when the plain one differs from the original)
+            let mut out: Vec<Result<(u64, TickRes), String>> = Vec::new();
+            let snap = |t: u64, s: &WorldlineState| -> (u64, TickRes) {
+                let mut tr = tick_res(s, false);
+                if let Some(o) = base.per.get(w).and_then(|x| x.get(t as usize)) {
+                    if tr.warp_fp != o.warp_fp && tr.root == o.root {
+                        tr.warp_sorted_fp = Some(sorted_fp(s));
+                    }
+                }
+                (t, tr)
+            };
             let mut cur = PlaybackCursor::new(
                 CursorId([0xc5; 32]),
                 *w,
@@ -395,7 +422,7 @@ pub fn verify(h: &History, base: &Baseline, material: &[ProvenanceEntry], opts: 
                 match cur.seek_to(WorldlineTick::from_raw(t), &p, &h.base) {
                     Ok(()) => {
                         reached = t;
-                        out.push(Ok((t, cur.materialized_state().clone())));
+                        out.push(Ok(snap(t, cur.materialized_state())));
                     }
                     Err(e) => {
                         out.push(Err(seek_err_name(&e)));
@@ -404,22 +431,12 @@ pub fn verify(h: &History, base: &Baseline, material: &[ProvenanceEntry], opts: 
                 }
             }
             if reached >= 2 {
+                // backward seek (rebuild path) from the furthest verified position
                 let back = reached / 2;
-                // after a failed seek the cursor state is undefined: use a fresh one positioned by
-                // a successful forward seek
-                let mut cur2 = PlaybackCursor::new(
-                    CursorId([0xc6; 32]),
-                    *w,
-                    warp,
-                    CursorRole::Reader,
-                    &h.base,
-                    WorldlineTick::from_raw(len),
-                );
-                match cur2
-                    .seek_to(WorldlineTick::from_raw(reached), &p, &h.base)
-                    .and_then(|()| cur2.seek_to(WorldlineTick::from_raw(back), &p, &h.base))
+                match cur.seek_to(WorldlineTick::from_raw(reached), &p, &h.base)
+                    .and_then(|()| cur.seek_to(WorldlineTick::from_raw(back), &p, &h.base))
                 {
-                    Ok(()) => out.push(Ok((back, cur2.materialized_state().clone()))),
+                    Ok(()) => out.push(Ok(snap(back, cur.materialized_state()))),
                     Err(e) => out.push(Err(seek_err_name(&e))),
                 }
             }
@@ -433,7 +450,7 @@ pub fn verify(h: &History, base: &Baseline, material: &[ProvenanceEntry], opts: 
             Ok(list) => {
                 for item in list {
                     match item {
-                        Ok((t, s)) => compare(&mut v, base, opts, "seek", *w, t, &s),
+                        Ok((t, tr)) => compare_res(&mut v, base, opts, "seek", *w, t, tr),
                         Err(name) => {
                             let name = format!("seek:{name}");
                             if !v.errors.contains(&name) {
